@@ -42,7 +42,7 @@ def generate(rng, tier):
 
 
 def search_cases(rng, tier):
-    return [L.gen_history(rng, PROFILE, rng.randint(3, 60)) for _ in range(6000)]
+    return [L.gen_history(rng, PROFILE, rng.randint(3, 60)) for _ in range(1500)]
 
 
 def failures(case, obs):
@@ -65,7 +65,7 @@ def failures(case, obs):
             pend = sorted(c for c, _ in target[6])
             if info['ok'] or updates:
                 want = [['update', LZ, target[1], pend]] if pend else []
-                if updates != want and not (not info['ok'] and updates == want):
+                if updates != want:
                     d = dict(base)
                     d['what'] = 'flush sent %r, pending columns were %r' % (updates, pend)
                     yield d
@@ -80,6 +80,23 @@ def failures(case, obs):
                         d = dict(base)
                         d['what'] = 'after the flush the row is %r, expected %r (row before %r, pending %r)' % (after, exp, before, target[6])
                         yield d
+            else:
+                # the database refused the flush: nothing may be lost -- the values are still unwritten, so they must
+                # still be pending and the object still dirty (a later syncUpdate must write them)
+                now = st['slots'][core[1]] if core[1] < len(st['slots']) else None
+                refused = (not st['log']) or st['log'][-1][0] == 'update'     # it was the UPDATE (or nothing) that raised
+                if not refused:
+                    now = None
+                if now is not None and (now[6] != target[6] or bool(now[3]) != bool(target[3])):
+                    d = dict(base)
+                    d['what'] = 'the flush raised %s but the pending values changed from %r (dirty=%r) to %r (dirty=%r)' % (
+                        st['out'][1], target[6], target[3], now[6], now[3])
+                    yield d
+                if refused and prev['tables'][LZ] != st['tables'][LZ]:
+                    d = dict(base)
+                    d['what'] = 'the flush raised %s but the table changed' % st['out'][1]
+                    yield d
+            if info['ok']:
                 others_before = [r for r in prev['tables'][LZ] if r[0] != target[1]]
                 others_after = [r for r in st['tables'][LZ] if r[0] != target[1]]
                 if others_before != others_after:
